@@ -10,29 +10,40 @@ from vt import worlds
 ID = 'C13'
 LEVEL = 'exploration'
 RULE = ('histories = every sequence of <=L tests in one layer (with per-test '
-        'layer hooks), each test = outcome kind (15 kinds, incl. tests with '
-        'two or more result events) x write pattern (nothing | stdout with / '
+        'layer hooks), each test = outcome kind (21 kinds, incl. tests with '
+        'two or more result events, passing subtests, a skip inside a subtest, tests that redirect, replace or save/restore sys.stdout themselves) x write pattern (nothing | stdout with / '
         'without newline | stderr | bytes through .buffer | both streams | '
-        'write in setUp), every write carrying a token unique to (test, '
+        'write in setUp | before and after the subtests | inside a passing subtest), every write carrying a token unique to (test, '
         'stream); run with --buffer on and off; tokens are searched in the '
         'captured runner stdout/stderr and stream identity is sampled at '
         'every trace event; non-trivial = >=1 write and >=1 non-pass outcome')
 ASSUMPTIONS = [
+    'tests that re-install a stream object they saved themselves (redirect_stdout around a failing subtest, save in setUp / restore in tearDown) are judged on what they wrote before, on stream identity between tests and on containment only',
     'a write "happened" if the phase containing it was reached according to the trace',
     'output written by a test after its first result event (e.g. in tearDown after a failing body) goes to the real streams and only has to stay inside that test\'s window',
 ]
 BOUND = {
-    'quick': 'all histories of length 1 and 2 (105 + 105^2) x buffer on/off with the plain formatter; with the XML wrapper and the colour formatter (buffer on): all of length 1 and those of length 2 whose first test writes nothing or to both streams',
-    'thorough': 'all histories of length <=3 with --buffer (105^3), length <=2 without',
+    'quick': 'all histories of length 1 and 2 (189 + 189^2) x buffer on/off with the plain formatter; with the XML wrapper and the colour formatter (buffer on): all of length 1 and those of length 2 whose first test writes nothing or to both streams',
+    'thorough': 'all histories of length <=3 with --buffer (189^3), length <=2 without',
 }
 CHUNK = 256
 
 KINDS = ['pass', 'fail', 'error', 'skip_body', 'skip_setup', 'skip_dec',
          'xfail', 'uxs', 'teardown_err', 'body+teardown', 'fail+teardown',
-         'sub:1,0,1', 'sub:2,0,0', 'setup_err', 'cleanup_err']
-WRITES = ['none', 'o', 'o-', 'e', 'ob', 'oe', 'ws']
+         'sub:1,0,1', 'sub:2,0,0', 'setup_err', 'cleanup_err',
+         'sub:0,0,2', 'sub_skip', 'redir_sub_fail', 'leave_replaced',
+         'swap_fail', 'swap_pass']
+WRITES = ['none', 'o', 'o-', 'e', 'ob', 'oe', 'ws', 'w2', 'wsub']
 SHOWN = {'fail', 'error', 'uxs', 'teardown_err', 'body+teardown',
-         'fail+teardown', 'sub:1,0,1', 'sub:2,0,0', 'setup_err', 'cleanup_err'}
+         'fail+teardown', 'sub:1,0,1', 'sub:2,0,0', 'setup_err', 'cleanup_err',
+         'redir_sub_fail', 'swap_fail'}
+# tests that touch sys.stdout themselves: only meaningful with --buffer (without
+# it the runner never looks at the streams, so it cannot be blamed for them)
+TOUCHES = {'leave_replaced'}
+# tests that put back a stream object they saved earlier (contextlib.
+# redirect_stdout does): what they write after that goes wherever they pointed
+# sys.stdout themselves and is not judged
+REINSTALLS = {'redir_sub_fail', 'swap_fail', 'swap_pass'}
 
 
 def _tests():
@@ -45,7 +56,7 @@ def cases(tier, seed):
     for ln in range(1, L + 1):
         for seq in itertools.product(alpha, repeat=ln):
             yield [list(map(list, seq)), True, 'plain']
-            if ln <= 2:
+            if ln <= 2 and not any(k in TOUCHES for k, w in seq):
                 yield [list(map(list, seq)), False, 'plain']
             if ln == 1 or (ln == 2 and (tier == 'thorough' or seq[0][1] in ('oe', 'none'))):
                 # other output formatters sit between the result and the text
@@ -71,6 +82,12 @@ def build_spec(seq):
             t['w'] = [['o', o + '\n', False], ['e', e + '\n', False]]
         elif w == 'ws':
             t['ws'] = [['o', o + '\n', False], ['e', e, False]]
+        elif w == 'w2':
+            # before the script and after it returned (after the subtests)
+            t['w'] = [['o', o + '\n', False]]
+            t['w2'] = [['o', 'TOK%da\n' % i, False], ['e', 'TOK%db\n' % i, False]]
+        elif w == 'wsub':
+            t['wsub'] = [['o', 'TOK%ds\n' % i, False]]
         tests.append(t)
     return {'layers': layers, 'tests': tests}
 
@@ -115,9 +132,10 @@ def run_case(case):
                 win[tid][2], win[tid][3] = ev[-2], ev[-1]
                 if not (ev[-4] and ev[-3]):
                     V('streams_not_restored_between_tests', 'at end of %s: stdout original=%s stderr original=%s' % (tid, ev[-4], ev[-3]), at='run<', script=spec['tests'][int(tid[1:])]['s'])
-            elif what in ('setUp', 'body'):
+            elif what in ('setUp', 'body', 'w2', 'wsub'):
                 reached.setdefault(tid, set()).add(what)
-        if not buf and not (ev[-4] and ev[-3]):
+        if not buf and not (ev[-4] and ev[-3]) and (ev[1] == 'L' or ev[3] in ('run>', 'run<', 'setUp', 'tearDown')):
+            # (events inside a test body may see the test's own redirection)
             V('streams_replaced_without_buffer', 'event %s' % (ev,))
     if res.streams_after != (True, True) and not res.escaped:
         V('streams_not_restored_after_run', res.streams_after)
@@ -131,7 +149,14 @@ def run_case(case):
                 happened += t['w']
             if 'ws' in t and 'setUp' in reached.get(tid, ()):
                 happened += t['ws']
-            for stream, text, via in (t.get('w') or []) + (t.get('ws') or []):
+            if 'w2' in t and 'w2' in reached.get(tid, ()):
+                happened += t['w2']
+            if 'wsub' in t and 'wsub' in reached.get(tid, ()):
+                happened += t['wsub']
+            judged = (t.get('w') or []) + (t.get('ws') or []) + (t.get('wsub') or [])
+            if k not in REINSTALLS:
+                judged += (t.get('w2') or [])
+            for stream, text, via in judged:
                 tok = text.strip().encode()
                 cap, a, b = (out, 0, 2) if stream == 'o' else (err, 1, 3)
                 n = cap.count(tok)
